@@ -63,7 +63,7 @@ class Case:
         self.M, self.REALM = M, REALM
         self.run, self.start, self.script = run, start, list(script)
         peers = [{"name": NAMES[0], "persistent": start != "no_dial", "reconnect_wait": 10 ** 7},
-                 {"name": NAMES[1]}, {"name": NAMES[2]}]
+                 {"name": NAMES[1], "realm": "other.example"}, {"name": NAMES[2]}]     # one application, two realms
         apps = [{"tag": "a4", "id": 4, "peers": [NAMES[0], NAMES[1]]},
                 {"tag": "c3", "id": 3, "auth": False, "acct": True, "peers": [NAMES[2]]}]
         self.w = World(dict(peers=peers, apps=apps,
